@@ -661,6 +661,100 @@ def broker_level_case(rng, acc):
     acc.count('C18:hand_driven_scripts')
 
 
+def aborting_run_script(rng):
+    """A run that lists an asset without a price yet at its first rebalance (the documented ValueError ends it), run again
+    after another run of the same process that listed that asset with weight 0.0."""
+    return {'tag': '%04d' % rng.randint(0, 9999), 'long_only': rng.random() < 0.6, 'late_days': rng.choice([6, 9, 14]),
+            'start_after_listing': rng.random() < 0.25, 'weight': rng.choice([0.5, 0.3, 1.0]), 'loud': rng.random() < 0.5,
+            'rebalance': rng.choice(['weekly', 'daily', 'end_of_month']),
+            # ... or: a moving-average model over both assets, trading only from a burn-in date after the listing (the
+            # averages still look back before it); the run in between used the same data handler for a later period
+            'signals': rng.random() < 0.4, 'lookback': rng.choice([8, 12])}
+
+
+def aborting_run_case(sp, acc):
+    import shutil
+    from qsmon import datawl
+    from qstrader.asset.equity import Equity
+    from qstrader.asset.universe.static import StaticUniverse
+    from qstrader.alpha_model.fixed_signals import FixedSignalsAlphaModel
+    from qstrader.data.backtest_data_handler import BacktestDataHandler
+    from qstrader.data.daily_bar_csv import CSVDailyBarDataSource
+    from qstrader.trading.backtest import BacktestTradingSession
+    d = tempfile.mkdtemp(prefix='qsmon-c18-')
+    old, late = 'OLD' + sp['tag'], 'NEW' + sp['tag']
+    try:
+        days = [dd for dd in (dt.date(2021, 3, 1) + dt.timedelta(days=k) for k in range(70)) if dd.weekday() < 5]
+        bars = lambda base, ds_: [{'date': x.isoformat(), 'open': base + 0.25 * i, 'close': base + 0.25 * i + 0.1, 'adj': base + 0.25 * i + 0.1}  # noqa
+                                  for i, x in enumerate(ds_)]
+        datawl.write_csv(os.path.join(d, old + '.csv'), bars(50.0, days), list(range(len(days))))
+        datawl.write_csv(os.path.join(d, late + '.csv'), bars(20.0, days[sp['late_days']:]), list(range(len(days) - sp['late_days'])))
+        start = pd.Timestamp(days[sp['late_days'] + 2 if sp['start_after_listing'] else 0].isoformat() + ' 14:30:00', tz='UTC')
+        end = pd.Timestamp(days[-1].isoformat() + ' 23:59:00', tz='UTC')
+
+        class AboveAverage(object):
+            def __init__(self, signals, uni_):
+                self.signals, self.uni = signals, uni_
+
+            def __call__(self, t_):
+                w_ = {}
+                for a_ in self.uni.get_assets(t_):
+                    m_ = self.signals['sma'](a_, sp['lookback'])
+                    w_[a_] = 0.5 if m_ == m_ and m_ > 30.0 else (0.25 if m_ == m_ else 0.0)
+                return w_
+        shared_handler = []
+
+        def outcome(w_late, begin=None, share=False):
+            uni = StaticUniverse(['EQ:' + old, 'EQ:' + late])
+            if share and shared_handler:
+                handler = shared_handler[0]
+            else:
+                handler = BacktestDataHandler(uni, data_sources=[CSVDailyBarDataSource(d, Equity, adjust_prices=False)])
+                if share:
+                    shared_handler.append(handler)
+            kw = {'cash_buffer_percentage': 0.05} if sp['long_only'] else {'gross_leverage': 1.0}
+            if sp['rebalance'] == 'weekly':
+                kw['rebalance_weekday'] = 'WED'
+            begin = begin or start
+            alpha = FixedSignalsAlphaModel({'EQ:' + old: 1.0 - sp['weight'], 'EQ:' + late: w_late})
+            if sp.get('signals'):
+                from qstrader.signals.sma import SMASignal
+                from qstrader.signals.signals_collection import SignalsCollection
+                sigs = SignalsCollection({'sma': SMASignal(begin, uni, lookbacks=[sp['lookback']])}, handler)
+                alpha = AboveAverage(sigs, uni)
+                kw['signals'] = sigs
+                kw['burn_in_dt'] = pd.Timestamp(days[sp['late_days'] + 3].isoformat() + ' 14:30:00', tz='UTC') if begin == start \
+                    else begin + pd.Timedelta(days=5)
+            sess = BacktestTradingSession(begin, end, uni, alpha,
+                                          rebalance=sp['rebalance'], long_only=sp['long_only'], data_handler=handler, **kw)
+            try:
+                with core.loud(sp['loud']):
+                    sess.run(results=False)
+            except Exception as e:
+                if not core.from_repo(e):
+                    raise
+                return ['raised', type(e).__name__, len(sess.equity_curve)]
+            return ['completed', [float(v).hex() for _, v in sess.equity_curve]]
+        first = outcome(sp['weight'])
+        if sp.get('signals'):
+            # somebody else's run over a later period, on the data handler the repeated run then uses too
+            outcome(sp['weight'], begin=pd.Timestamp(days[sp['late_days'] + 12].isoformat() + ' 14:30:00', tz='UTC'), share=True)
+            again = outcome(sp['weight'], share=True)
+            acc.count('C18:runs_on_a_data_handler_that_served_a_later_period')
+        else:
+            outcome(0.0)                      # somebody else's run: the same listing, the new asset at weight 0.0
+            again = outcome(sp['weight'])
+        acc.count('C18:runs', 3)
+        acc.count('C18:runs_that_end_with_the_documented_error' if first[0] == 'raised' else 'C18:runs_of_the_abort_script_that_complete')
+        if first != again:
+            raise Violation('C18', 'repeat-after-another-run/%s' % first[0], 'a %s run listing an asset whose first bar comes %d '
+                            'business days after the data begin (start %s) ended as %s; after another run of the same process '
+                            '(same listing, that asset at weight 0.0) the very same run ended as %s'
+                            % ('long-only' if sp['long_only'] else 'long/short', sp['late_days'], start, str(first)[:160], str(again)[:160]), sp)
+    finally:
+        shutil.rmtree(d, ignore_errors=True)
+
+
 def shard_c18(spec, acc):
     rng = random.Random(spec['rng'])
     t_end = time.time() + spec['budget_s']
@@ -677,6 +771,11 @@ def shard_c18(spec, acc):
                 r4 = random.Random()
                 r4.setstate(seed3)
                 acc.violation(v, {'hand_driven': broker_script(r4)})
+        sp_ = aborting_run_script(random.Random(rng.randint(0, 2 ** 31)))
+        try:
+            aborting_run_case(sp_, acc)
+        except Violation as v:
+            acc.violation(v, {'aborting_run': sp_})
         cfg = gen_c18_cfg(rng, 45 if spec['tier'] == 'quick' else 120)
         case = {'cfg': cfg, 'hashseeds': spec['hashseeds'], 'seed': rng.randint(0, 10 ** 6)}
         if i % 12 == 1:
